@@ -10,8 +10,8 @@ Binding: configuration histories (sequences of add_scu / add_scp calls with clas
 0..4, either transfer syntax) for small proposals and seeded patterns for large ones, or an
 A-ASSOCIATE-RJ; the A-ASSOCIATE-RQ handed to the provider is parsed by the reference parser; TLC
 judges request, usable table and lookups (Trace_Negotiation).
-Scope (DESIGN.md 4 C11): class lists are disjoint; the 'iff' of the lookup is claimed for classes
-configured through add_scu.
+Scope (DESIGN.md 4 C11): the 'iff' of the lookup is claimed for classes configured through add_scu;
+class lists of successive calls may overlap (a class configured twice is one configured class).
 """
 from __future__ import annotations
 
@@ -38,6 +38,12 @@ def histories(tier, rng):
             yield [('scu', a), ('scu', b)]
             yield [('scu', a), ('scp', b)]
             yield [('scp', a), ('scu', b)]
+    # the same class configured in two calls (an entity that is user and provider of a service, a class list given
+    # twice): it is still ONE configured class.  A third element k = the first k classes repeat those of the previous call
+    yield [('scu', 1), ('scp', 1, 1)]
+    yield [('scp', 2), ('scu', 2, 2)]
+    yield [('scu', 2), ('scu', 3, 1)]
+    yield [('scu', 3), ('scp', 1), ('scu', 2, 1)]
     for n in (63, 64, 126, 127, 128):
         yield [('scu', n)]
     yield [('scu', 64), ('scu', 64)]
@@ -72,7 +78,7 @@ def reply_patterns(ctx_ids, ts_list, tier, rng):
 
 def run_case(hist, ts_list, reply, own_max, rng):
     scu_lists, all_classes, scu_classes = [], [], []
-    needs_server = any(k == 'scp' for k, _ in hist)
+    needs_server = any(h[0] == 'scp' for h in hist)
     if needs_server:
         ae = N.applicationentity.AE('LOCAL-AE', 0, supported_ts=ts_list, max_pdu_length=own_max, bind_and_activate=False)
         try:
@@ -81,15 +87,19 @@ def run_case(hist, ts_list, reply, own_max, rng):
             pass
     else:
         ae = N.applicationentity.ClientAE('LOCAL-AE', supported_ts=ts_list, max_pdu_length=own_max)
-    for j, (kind, n) in enumerate(hist):
-        classes = uid_pool(n, j)
+    prev = []
+    for j, h in enumerate(hist):
+        kind, n = h[0], h[1]
+        shared = h[2] if len(h) > 2 else 0
+        classes = prev[:shared] + uid_pool(n - shared, j)
+        prev = classes
         rec = N.Recorder(classes)
         if kind == 'scu':
             ae.add_scu(rec)
             scu_classes.extend(classes)
         else:
             ae.add_scp(rec)
-        all_classes.extend(classes)
+        all_classes.extend(c for c in classes if c not in all_classes)
     remote = {'aet': 'REMOTE-AE', 'address': 'peer.example', 'port': 11112}
     cfg = {'classes': all_classes, 'ts': [str(t) for t in ae.supported_ts], 'called': 'REMOTE-AE', 'calling': 'LOCAL-AE', 'max': N.limbs(own_max)}
     ids = sorted(ae.context_def_list)
@@ -152,7 +162,7 @@ def main(tier='quick'):
     cases, metas = [], []
     ts_variants = [[N.TS_UID['T1']], [N.TS_UID['T2'], N.TS_UID['T1']], [N.TS_UID['T1'], N.TS_UID['T2'], N.TS_UID['T3']]]
     for hist in histories(tier, rng):
-        total = sum(n for _, n in hist)
+        total = sum(h[1] - (h[2] if len(h) > 2 else 0) for h in hist)
         ts_list = ts_variants[total % 3]
         ids = [1 + 2 * i for i in range(total)]
         for reply in reply_patterns(ids, ts_list, tier, rng):
